@@ -602,7 +602,8 @@ def compile_deftype(compiler, expr, root, tp, name, value):
     return value + asty.TypeAlias(expr,
        name = asty.Name(name, id = mangle(compiler._nonconst(name)), ctx = ast.Store()),
        value = value.force_expr,
-        **digest_type_params(compiler, tp))
+        # `ast.unparse` needs `type_params` to be present.
+        **{"type_params": [], **digest_type_params(compiler, tp)})
 
 
 @pattern_macro(["global", "nonlocal"], [many(SYM)])
